@@ -153,7 +153,9 @@ func c17Doc(r *fw.Rand) (*docdid.Doc, []c17Key, string) {
 		}
 		if r.Chance(1, 3) {
 			// custom members: names related by prefix, a control character in a value
-			svc.Properties = map[string]interface{}{"origin": "o", "origins": []interface{}{"a", "b"}, "note": "rev\u001e" + fmt.Sprint(r.Intn(9))}
+			svc.Properties = map[string]interface{}{"origin": "o", "origins": []interface{}{"a", "b"}, "note": "rev\u001e" + fmt.Sprint(r.Intn(9)),
+				// characters beyond the basic plane (written as surrogate-pair escapes by some serializers), the line separators, a name made of them
+				"label": fw.Pick(r, []string{"\U0001F600 ok", "clef \U0001D11E", "\U0010FFFF", "sep\u2028\u2029", "caf\u00e9 \u20ac"}), "\U0001F511": "k"}
 			shape += "X"
 		}
 		d.Service = append(d.Service, svc)
@@ -399,6 +401,24 @@ func c17Case(c *fw.Case, thorough bool) {
 		} else if _, err := h.ResolveDocument(pid2); err != nil {
 			c.Failf("process-operation-result-not-resolvable", map[string]interface{}{"did": did, "returned_id": pid2, "err": err.Error()}, "DID returned by ProcessOperation does not resolve")
 		}
+	}
+	// ... and with characters written as \uXXXX escapes (surrogate pairs beyond the basic plane, as many serializers write them) and
+	// numbers in other spellings; spellings that outgrow the handler's operation size limit are not asked
+	for try := 0; try < 1; try++ {
+		spelled := gen.EscapeNonASCII(r, gen.Spell(r, req, gen.SpellOpts{Shuffle: true, Numbers: true}), 2, 3)
+		if len(spelled) > 2400 {
+			continue
+		}
+		c.Count("process-operation-respelled-with-escapes", 1)
+		c.Evals(1)
+		if pr2, err := h.ProcessOperation(spelled); err != nil {
+			c.Failf("process-operation-respelled-error", map[string]interface{}{"request": string(spelled), "err": err.Error()}, "ProcessOperation refused a valid create request in another spelling: %v", err)
+		} else if pid2, _ := pr2.Document["id"].(string); pid2 != did {
+			c.Failf("process-operation-respelled-other-did", map[string]interface{}{"request": string(spelled), "did": did, "returned_id": pid2}, "ProcessOperation returns another DID for the same create request in another spelling")
+		} else if _, err := h.ResolveDocument(pid2); err != nil {
+			c.Failf("process-operation-result-not-resolvable", map[string]interface{}{"did": did, "returned_id": pid2, "err": err.Error()}, "DID returned by ProcessOperation does not resolve")
+		}
+		break
 	}
 	// an initial state without the optional "type" member (the form other Sidetree implementations produce): if the handler resolves
 	// it, the document's id is the DID that was asked for
